@@ -3,7 +3,7 @@ use crate::{
     error::{WriterError, WriterResult},
     model::{
         TryFromNode,
-        field::{as_field_name, as_type_name, not_starting_with_a_digit, resolve_type},
+        field::{as_field_name, as_type_name, identifier_characters_only, not_starting_with_a_digit, resolve_type},
     },
     reader::WriteXml,
 };
@@ -106,7 +106,7 @@ where
         name => name,
     };
     // the envelopes are emitted under the PascalCase form of the operation name
-    let operation_name = not_starting_with_a_digit(to_pascal_case(operation_name));
+    let operation_name = not_starting_with_a_digit(identifier_characters_only(&to_pascal_case(operation_name)));
     let request_name = format!("{operation_name}InputEnvelope");
     let response_name = operation
         .output
